@@ -36,6 +36,7 @@ type op12 struct {
 }
 
 type fix12 struct {
+	troot    *thrift.TypeDescriptor
 	ops      []*op12
 	descDump func() string
 	dump0    string
@@ -92,7 +93,7 @@ func newThriftFix(r *rand.Rand) *fix12 {
 	binIn := [][]byte{bins[0], bins[1], truncMid(bins[2]), bins[3]}
 	jsIn := [][]byte{jsons[0], jsons[1], garbleJSON(jsons[2]), jsons[3]}
 	errs := []bool{false, false, true, false}
-	fx := &fix12{}
+	fx := &fix12{troot: root}
 	fx.ops = []*op12{
 		{name: "t2j.Do", inputs: binIn, isErr: errs, f: func(in []byte) ([]byte, error) { return ct.Do(context.Background(), root, in) }},
 		{name: "j2t.Do", inputs: jsIn, isErr: errs, f: func(in []byte) ([]byte, error) { return cj.Do(context.Background(), root, in) }},
@@ -171,6 +172,29 @@ func newProtoFix(r *rand.Rand) *fix12 {
 		return string(bs)
 	}
 	return fx
+}
+
+func fxRoot(fx *fix12) *thrift.TypeDescriptor { return fx.troot }
+
+type protoFixEnv struct {
+	env  *pbEnv
+	json []byte
+}
+
+func newProtoFixEnv(r *rand.Rand) protoFixEnv {
+	cp := p2j.NewBinaryConv(conv.Options{})
+	for {
+		e, err := newPbEnv(randSchemaK(r, []string{"int32", "int64", "uint32", "uint64", "string"}))
+		if err != nil {
+			continue
+		}
+		for try := 0; try < 20; try++ {
+			b := refMarshal(randMsgPB(r, e.rroot, 0, pbGenCfg{maxStr: 100, finite: true}))
+			if js, err := cp.Do(context.Background(), e.droot, b); err == nil && len(js) > 10 {
+				return protoFixEnv{env: e, json: append([]byte(nil), js...)}
+			}
+		}
+	}
 }
 
 type held12 struct {
